@@ -32,10 +32,14 @@ Check(r, idx) ==
     \* read stores the extended deadline.  A cache that is not above its maximum (or has none) never reports Overflow, and the
     \* racing value is reported at most once.
     \o (IF r.hang = 0 /\ r.nopressure = 1 /\ r.overflow > 0 THEN <<F(idx, "C06.overflow_without_size_pressure", <<r.overflow, r.expired, r.gated, r.sc>>)>> ELSE <<>>)
-    \o (IF r.hang = 0 /\ r.nopressure = 1 /\ r.expired + r.other > 1 THEN <<F(idx, "C06.reported_twice", <<r.expired, r.other, r.sc>>)>> ELSE <<>>)
+    \o (IF r.hang = 0 /\ r.nopressure = 1 /\ r.sc.op \in {"gate.get", "gate.getentry"} /\ r.expired + r.other > 1 THEN <<F(idx, "C06.reported_twice", <<r.expired, r.other, r.sc>>)>> ELSE <<>>)
     \* a write that finds the entry expired while a reader extends the deadline of the node being replaced (op sia-x): the stored value is
     \* known to the policies - the orderings enumerate exactly the entries iteration yields
-    \o (IF r.hang = 0 /\ r.sc.op \in {"sia.setifabsent", "sia.set"} /\ r.live # r.cold THEN <<F(idx, "C05.present_but_unknown_to_policy", <<r.live, r.cold, r.inserted, r.sc>>)>> ELSE <<>>)
+    \o (IF r.hang = 0 /\ r.sc.op \in {"sia.setifabsent", "sia.set", "sia.setgate", "sia.cmpgate"} /\ r.live # r.cold THEN <<F(idx, "C05.present_but_unknown_to_policy", <<r.live, r.cold, r.inserted, r.sc>>)>> ELSE <<>>)
+    \* ... and the value it replaced reaches both handlers with the same cause (the writer parked between its table computation and the
+    \* publication of its event while the reader stores the extended deadline into the replaced node: ops sia-xgate)
+    \o (IF r.hang = 0 /\ r.atomiccause # "" /\ r.asynccause # "" /\ r.atomiccause # r.asynccause
+        THEN <<F(idx, "C06.causes_differ_between_handlers", <<r.atomiccause, r.asynccause, r.sc>>)>> ELSE <<>>)
     \* an entry that is still present after the race is known to the wheel: covered by still_counted / expiration_not_reported above
     \o (IF r.hang = 0 /\ r.visible = 1 /\ r.deadlinepassed = 1 THEN <<F(idx, "C13.visible_after_deadline", r.sc)>> ELSE <<>>)
     \* a read racing the sweep (it only extends the deadline): a sized cache filled right after the race stays within its maximum
